@@ -41,6 +41,22 @@ CHECKS = {
          "Aggregates of 1-8 commitments proved under capacity m*2^a and verified under m*2^b, alone and inside batches with other capacities, all modes; every vector generator under each capacity equals the reference derivation for (party, index).",
          "Size bound bits*capacity <= 1024 (quick F).",
          "DESIGN.md section 3, C12"),
+ "C04": ("exploration", "property-based testing with a metamorphic oracle observed at the merlin boundary (instrumented dependency): one absorbed datum perturbed => every later challenge differs",
+         "For generated triples at batch positions 0-2, each absorbed datum (context, H, every G_k, bit length, aggregation factor, extension degree, every commitment, every promise, A, every L_j and R_j, A1, B) is perturbed alone and the challenge sequence of verifier (and, for context / promises, prover) is compared with the base run: all challenges after the datum must differ, None<->Some(0) must change nothing, prover and verifier must agree.",
+         "Challenges are identified by order of challenge_bytes calls per member; vendor/merlin-tap = merlin 3.0.0 + logging calls (C19 pins that it still computes merlin).",
+         "DESIGN.md section 3, C04"),
+ "C08": ("exploration", "stateful property-based testing: adaptive attack histories against batch weights read off the verifier's final equation over a free-module engine",
+         "Histories over batches of 2-6 proofs: read every proof's factor through markers, bump a response scalar and demand that factor ratios move, compute equal-and-opposite offsets from factors observed on the previous run and demand rejection; plus naive cancellation on Ristretto.",
+         "Factors are observable only over engine F; ratio coincidence has probability 2^-252.",
+         "DESIGN.md section 3, C08"),
+ "C13": ("exploration", "property-based testing with nonce read-out: proof points over a free-module engine expose every blinding nonce as a coordinate; differential against an independent Blake2b derivation",
+         "Each generated statement is proved twice with different RNG streams; all nonces (alpha, dL, dR, d, eta per degree index and round, r, s) are extracted exactly and must be nonzero, pairwise distinct, disjoint between runs (no seed) or equal to the reference seed derivation with fresh r, s (seed).",
+         "Read-out relies on the proof layout (self-checked: r*y*s == coef(B,h)); a failed self-check is exit 2.",
+         "DESIGN.md section 3, C13"),
+ "C14": ("fault_enumeration", "fault injection into the prover's external RNG (enumerated fault models) x generated single-field differences, with nonce read-out over the free module",
+         "Enumerates RNG fault models {all-zero, constant, period-8, counter, replayed stream} against pairs of runs differing in exactly one of context / promise / commitment / witness value with same commitment / witness blinding split with same commitment / nothing, at generated aggregate positions, with and without seed; identical runs must be byte-identical, otherwise no RNG-derived nonce may be shared.",
+         "Same-commitment witness pairs need degenerate Pedersen generators built as struct literals, which the library accepts; Ristretto cross-check compares proof elements byte-wise.",
+         "DESIGN.md section 3, C14"),
 }
 NOT_YET = "check not built yet in this revision of /verif (planned in DESIGN.md section 3)"
 m = {
